@@ -30,7 +30,11 @@ let rec drop k l = if k = 0 then l else match l with [] -> [] | _ :: t -> drop (
 
 let run_case (cfgs : string) (ops : string list) : string =
   let cf = Array.of_list (split_on ',' cfgs) in
-  let s = ref (tinit (n_of_int (int_of_string cf.(0))) (cf.(1) = "1") false) in
+  let x = ref (iinit (n_of_int (int_of_string cf.(0))) (cf.(1) = "1") false) in
+  let s = ref !x.i_s in
+  (* every step goes through the interest layer; s mirrors its send-path component *)
+  let tstep (_ : tsess) (o : top) = let (x', r) = istep !x o in x := x'; (x'.i_s, r) in
+  let armed = Buffer.create 16 in
   let data_total = ref [] in
   let peer_open = ref true in
   let out = List.map (fun op ->
@@ -56,9 +60,10 @@ let run_case (cfgs : string) (ops : string list) : string =
        | ["x"] -> let (s', _) = tstep !s TClose in s := s'
        | ["k"] -> peer_open := false; let (s', _) = tstep !s TClose in s := s'
        | _ -> ());
+      Buffer.add_char armed (if not !s.t_open then '-' else if !x.i_armed then '1' else '0');
       if was_open && not !s.t_open then "X" else ".") ops in
   (* after the peer has closed, what the engine still writes is not seen by anybody *)
-  String.concat " | " out ^ " || W" ^ digest !s.t_wire ^ " D" ^ digest !data_total
+  String.concat " | " out ^ " || W" ^ digest !s.t_wire ^ " D" ^ digest !data_total ^ " E" ^ Buffer.contents armed
 
 let handle (line : string) : string =
   match split_on ' ' line with
